@@ -129,6 +129,10 @@ def step' (d : DSt) (toks0 : List String) : DSt × String :=
     doOp d (.ingest (natD id) (tyOf ty) (natD c) (if st = "aware" then .aware else .at (intD st)))
   | ["ingest_error", id, c] => if natD c = 0 then (d, "bad-op") else doOp d (.ingest (natD id) .failedOp (natD c) .now)
   | ["ingest_sensitive", id, c] => doOp d (.ingest (natD id) .toxic (natD c) .now)
+  | ["prune", id, f] =>
+    -- AutophagyDaemon.check_and_prune on a daemon sharing this lysosome: when it prunes it ingests exactly one
+    -- EXPIRED_CACHE item (content code 1) and does nothing else to the lysosome
+    if f = "1" then doOp d (.ingest (natD id) .expired 1 .now) else doOp d (.advance 0)
   | ["digest", k] => doOp d (.digest (optInt k))
   | ["autophagy"] => doOp d .autophagy
   | ["adv", us] => doOp d (.advance (natD us))
